@@ -609,6 +609,117 @@ func checkOutput(t hx.TB, test string, pos position, s, c, out, canonRef, how st
 
 func leadingDigitCase(pos position, s string) bool { return false }
 
+// Named types that are not structs (`%name = type i32 (i8*)`): one position per type kind, because every
+// kind has its own String method. LLVM reads such a name as an alias, so the LLVM comparison checks the
+// module without the name; the name itself is judged by the library's own round trip.
+func init() {
+	type kind struct {
+		name, body, init string
+		mk               func() types.Type
+		ptrUse           bool
+	}
+	kinds := []kind{
+		{"func", "i32 (i8*)", "null", func() types.Type { return types.NewFunc(types.NewInt(32), types.NewPointer(types.NewInt(8))) }, true},
+		{"array", "[2 x i8]", "zeroinitializer", func() types.Type { return types.NewArray(2, types.NewInt(8)) }, false},
+		{"vector", "<4 x i32>", "zeroinitializer", func() types.Type { return types.NewVector(4, types.NewInt(32)) }, false},
+		{"pointer", "i8*", "null", func() types.Type { return types.NewPointer(types.NewInt(8)) }, false},
+		{"int", "i32", "0", func() types.Type { return types.NewInt(32) }, false},
+		{"float", "double", "0.0", func() types.Type { return &types.FloatType{Kind: types.FloatKindDouble} }, false},
+	}
+	for _, k := range kinds {
+		k := k
+		positions = append(positions, position{name: "type/" + k.name, build: func(s string) *ir.Module {
+			m := ir.NewModule()
+			name := s
+			if strings.Trim(s, "0123456789") == "" {
+				name = `"` + s + `"`
+			}
+			t := m.NewTypeDef(name, k.mk())
+			if k.ptrUse {
+				m.NewGlobalDef("g", constant.NewNull(types.NewPointer(t)))
+			} else {
+				m.NewGlobalDef("g", constant.NewZeroInitializer(t))
+			}
+			return m
+		}, text: func(e string) string {
+			if k.ptrUse {
+				return "%\"" + e + "\" = type " + k.body + "\n@g = global %\"" + e + "\"* null\n"
+			}
+			return "%\"" + e + "\" = type " + k.body + "\n@g = global %\"" + e + "\" zeroinitializer\n"
+		}, get: func(m *ir.Module) (string, bool) {
+			if len(m.TypeDefs) != 1 {
+				return "", false
+			}
+			n := m.TypeDefs[0].Name()
+			if l := len(n); l > 2 && n[0] == '"' && n[l-1] == '"' && strings.Trim(n[1:l-1], "0123456789") == "" {
+				n = n[1 : l-1]
+			}
+			// the use must carry the same name
+			g := m.Globals[0]
+			ct := g.ContentType
+			if k.ptrUse {
+				if pt, ok := ct.(*types.PointerType); ok {
+					ct = pt.ElemType
+				}
+			}
+			if ct.Name() != m.TypeDefs[0].Name() {
+				return "use:" + ct.Name(), true
+			}
+			return n, true
+		}, reject: func(s string) bool {
+			if quotedDigits(s) && kfTypeQuotedDigits {
+				kf.Hit("KF-C11-type-name-quoted-digits")
+				return true
+			}
+			return false
+		}})
+	}
+}
+
+// TestNumberedTypes: `%7 = type <body>` for every kind of body keeps its number (it must not become the
+// *name* "7") through print and parse, from text and through the API.
+func TestNumberedTypes(t *testing.T) {
+	const test = "NumberedTypes"
+	hx.Rule(test, "numbered type definitions %N = type <body> for N in {0, 7, 42, 1000} x body kinds {struct, opaque, function, array, vector, pointer, integer, floating point}, from text and through Module.NewTypeDef(\"N\", ...): the printed text defines and uses %N (no quotes), is accepted by the parser and by LLVM, and is a fixpoint")
+	bodies := []struct{ name, body, use string }{
+		{"struct", "{ i32 }", "@g = global %%%d zeroinitializer"}, {"opaque", "opaque", "@g = external global %%%d"},
+		{"func", "i32 (i8*)", "@g = global %%%d* null"}, {"array", "[2 x i8]", "@g = global %%%d zeroinitializer"},
+		{"vector", "<4 x i32>", "@g = global %%%d zeroinitializer"}, {"pointer", "i8*", "@g = global %%%d null"},
+		{"int", "i32", "@g = global %%%d 0"}, {"float", "double", "@g = global %%%d 0.0"},
+	}
+	for bi, b := range bodies {
+		for _, n := range []int{0, 7, 42, 1000} {
+			if !hx.Mine(bi) {
+				continue
+			}
+			x := fmt.Sprintf("%%%d = type %s\n"+b.use+"\n", n, b.body, n)
+			if !llvmx.Accept(x).OK {
+				hx.Discard("llvm_rejects_reference_text/numbered-" + b.name)
+				continue
+			}
+			hx.Eval(1)
+			c := fmt.Sprintf("numbered-type/%s %d\n%s", b.name, n, x)
+			y, _, err, p := lx.ParsePrint(x)
+			if err != nil || p != nil {
+				hx.Fail(t, test, "txt", c, "a numbered %s type is not parsed and printed: %v %v", b.name, err, p)
+			}
+			def := fmt.Sprintf("%%%d = type", n)
+			if !strings.Contains(y, def) || strings.Contains(y, fmt.Sprintf("%%\"%d", n)) || strings.Count(y, fmt.Sprintf("%%%d", n)) < 2 {
+				hx.Fail(t, test, "txt", c, "the numbered type %%%d (%s body) is not printed as %%%d in its definition and its use:\n%s", n, b.name, n, y)
+			}
+			z, _, err2, p2 := lx.ParsePrint(y)
+			if err2 != nil || p2 != nil || z != y {
+				hx.Fail(t, test, "txt", c, "the printed module is not a fixpoint (%v %v):\n%s\n--- second print ---\n%s", err2, p2, y, z)
+			}
+			if r := llvmx.Accept(y); !r.OK && !r.Crashed {
+				hx.Fail(t, test, "txt", c, "LLVM rejects the printed module: %s\n%s", firstLine(r.Err), y)
+			}
+			hx.NonTrivial(c)
+			hx.Hist("numbered-type/" + b.name)
+		}
+	}
+}
+
 func firstLine(s string) string {
 	if i := strings.IndexByte(s, '\n'); i >= 0 {
 		return s[:i]
